@@ -2,6 +2,8 @@
 import json
 import os
 import re
+import shutil
+import tempfile
 from lib.vlib import *
 
 META = {
@@ -25,7 +27,7 @@ META = {
 
 HDR = "From Dawn Require Import Mvs.Edit Mvs.Run.\nOpen Scope N_scope.\n"
 OVL = "overlay/internal/mvs/"
-FILES = ["zz_verif_mvsgen_test.go", "zz_verif_c10_test.go", "zz_verif_c11_test.go"]
+FILES = ["zz_verif_mvsgen_test.go", "zz_verif_c10_test.go", "zz_verif_c10_cache_test.go", "zz_verif_c11_test.go"]
 
 SEMVER = re.compile(r"^v(0|[1-9]\d*)\.(0|[1-9]\d*)\.(0|[1-9]\d*)(?:-([0-9A-Za-z.-]+))?$")
 
@@ -115,6 +117,54 @@ def crashed_case(recs):
     return starts[-1]["case"] if starts else 0
 
 
+def cache_family(ctx, crecs):
+    """download-cache states produced by faults, kills and concurrent resolvers, over multi-repository layouts
+    (harness/overlay/internal/mvs/zz_verif_c10_cache_test.go): every answer must be the reference build list"""
+    cunis = {r["id"]: r for r in crecs if r["t"] == "CU"}
+    ccases = [r for r in crecs if r["t"] == "CC"]
+    end = [r for r in crecs if r["t"] == "END"]
+    if not end or not ccases:
+        ctx.violation("the cache-state family of the C10 harness did not run to its end",
+                      {"theorem_or_correspondence": "TestVerifC10Cache", "records": len(crecs)}, found_input=False)
+        return
+    fired = sum(c["fired"] for c in ccases)
+    ctx.coverage["evaluations"] += end[0]["runs"]
+    ctx.coverage["cache_states"] = {
+        "universes": len(cunis), "cases": len(ccases), "fault_scenarios": end[0]["scenarios"], "build_lists": end[0]["runs"],
+        "faults_that_fired": fired, "faults_that_did_not_fire": sum(c["not_fired"] for c in ccases),
+        "reference_ok": sum(1 for c in ccases if c["want"]["st"] == "ok"),
+        "layout": {k: sum(1 for u in cunis.values() for p in u["layout"].values() if sel(p))
+                   for k, sel in (("own repository, at its root", lambda p: p["path_in_repository"] == "" ),
+                                  ("own repository, subdirectory", lambda p: "/m-" in p["repository"]),
+                                  ("shared repository", lambda p: p["repository"].endswith("/u")))},
+        "rule": "generated universes laid out over several repositories (project at a repository root reported as '' "
+                "or '.', in a subdirectory, in the shared repository; dawn.toml or .dawnconfig next to other files; a "
+                "third of the universes with requirements on pseudo-versions); delivery as os.CopyFS does it "
+                "(directory, then file by file in lexical order, the configuration file created empty / a well-formed "
+                "prefix / the rest); per case 3 downloads of the cold run: every delivery point of the first and two of "
+                "each other, plus one of dial / list versions / look up revision; each point x {fails once: same "
+                "resolver again, fresh resolver on a copy of the cache the failed run left; parks: second resolver "
+                "meanwhile, first resolver once released, fresh resolver on a copy of the cache taken while parked, "
+                "fresh resolver after both}",
+    }
+    if fired == 0:
+        ctx.violation("no injected fault fired in the cache-state family (harness defect)",
+                      {"theorem_or_correspondence": "TestVerifC10Cache"}, found_input=False)
+    seen = set()
+    for f in [r for r in crecs if r["t"] == "ORACLE"]:
+        if f["name"] in seen:
+            continue
+        seen.add(f["name"])
+        fault = f.get("fault")
+        ctx.violation("implementation violates C10 oracle %s%s: BuildList = %s, expected %s" % (
+            f["name"], (" (fault %s)" % fault["meaning"]) if fault else "", json.dumps(f["got"])[:300],
+            json.dumps(f["want"])[:300]),
+            {"oracle": f["name"], "universe_and_layout": cunis[f["u"]], "root_requirements": f["root"], "fault": fault,
+             "got": f["got"], "want": f["want"],
+             "how": "internal/mvs.BuildList over the repositories of harness/overlay/internal/mvs/"
+                    "zz_verif_c10_cache_test.go: case %d of VERIF_SEED=%d -run TestVerifC10Cache" % (f["case"], ctx.seed)})
+
+
 def run(ctx):
     ok, rep = ctx.coq_props("Mvs/Props_C10.v")
     proof_broken = not ok
@@ -125,15 +175,36 @@ def run(ctx):
         return
 
     nuniv = 150 if ctx.quick() else 1500
+    ncache = 40 if ctx.quick() else 400
     out = os.path.join(ctx.tmp, "c10.jsonl")
+    outc = os.path.join(ctx.tmp, "c10cache.jsonl")
     env = {"VERIF_OUT": out, "VERIF_NUNIV": str(nuniv), "VERIF_NROOTS": "3", "VERIF_SEED": str(ctx.seed),
-           "VERIF_MALFORMED_MAJOR": os.environ.get("VERIF_MALFORMED_MAJOR", "0")}
-    rc, o = ctx.go_overlay_test("internal/mvs", harness_files(), "^TestVerifC10$", env, timeout=1500)
+           "VERIF_MALFORMED_MAJOR": os.environ.get("VERIF_MALFORMED_MAJOR", "0"),
+           "VERIF_OUT_CACHE": outc, "VERIF_NUNIV_CACHE": str(ncache), "VERIF_NROOTS_CACHE": "2",
+           "VERIF_CACHE_TARGETS": "3"}
+    # the cache-state family creates and removes ~10^5 small files: keep the temporary directory (the resolver's
+    # staging areas and the cache directories alike, so renames stay on one file system) in memory when possible
+    shm = None
+    if os.path.isdir("/dev/shm") and os.access("/dev/shm", os.W_OK):
+        shm = tempfile.mkdtemp(prefix="verif-c10-", dir="/dev/shm")
+        env["TMPDIR"] = shm
+    try:
+        rc, o = ctx.go_overlay_test("internal/mvs", harness_files(), "^TestVerifC10(Cache)?$", env, timeout=1500)
+    finally:
+        if shm:
+            shutil.rmtree(shm, ignore_errors=True)
     recs = read_jsonl(out)
+    crecs = read_jsonl(outc)
     if rc != 0:
         ctx.log(o[-3000:])
         cc = crashed_case(recs)
-        if cc is not None and recs:
+        if cc is None and crashed_case(crecs) is not None and crecs:
+            ccc = crashed_case(crecs)
+            cunis = {r["id"]: r for r in crecs if r["t"] == "CU"}
+            ctx.violation("BuildList crashed the process on case %d of the cache-state family" % ccc,
+                          {"case": ccc, "last_universe": cunis[max(cunis)] if cunis else None, "output": o[-3000:],
+                           "how": "VERIF_SEED=%d go test -overlay ... -run TestVerifC10Cache ./internal/mvs" % ctx.seed})
+        elif cc is not None and recs:
             unis = {r["id"]: r for r in recs if r["t"] == "U"}
             ctx.violation("BuildList crashed the process (a panic inside the library's workers) on generated case %d" % cc,
                           {"case": cc, "last_universe": unis[max(unis)] if unis else None, "output": o[-3000:],
@@ -166,6 +237,7 @@ def run(ctx):
                             "are not generated for C10" % nuniv)
     ctx.coverage["exhaustive"] = False
     ctx.coverage["correspondence"]["distribution"] = dist
+    cache_family(ctx, crecs)
     ctx.add_samples([{"root": c["root"], "build_list": c["res"]["cold"]} for c in cases[:3]])
 
     seen = set()
